@@ -131,7 +131,8 @@ PORTS = st.one_of(st.none(), st.none(), st.none(), st.sampled_from(["", "80", "4
 
 @st.composite
 def url_structs(draw, dirty=True, userinfo=True, max_segments=4, max_items=4, weights=None,
-                scheme_forms=("explicit", "explicit", "explicit", "absent", "slashes"), host_kw=None):
+                scheme_forms=("explicit", "explicit", "explicit", "absent", "slashes"), host_kw=None,
+                host_strategy=None):
     """A URL structure; components are *strings* built from tokens."""
     tx = (lambda comp, lo=0, hi=4: draw(text(comp, lo, hi, weights))) if dirty else \
          (lambda comp, lo=0, hi=3: draw(clean_text(max(lo, 1), hi)))
@@ -149,7 +150,7 @@ def url_structs(draw, dirty=True, userinfo=True, max_segments=4, max_items=4, we
             s["password"] = tx("password", 1, 3)
         elif form == "user:":
             s["password"] = ""
-    s["host"] = draw(hosts(**(host_kw or {})))
+    s["host"] = draw(host_strategy) if host_strategy is not None else draw(hosts(**(host_kw or {})))
     s["port"] = draw(PORTS)
     nseg = draw(st.integers(0, max_segments))
     segs = []
